@@ -690,6 +690,11 @@ func init() {
 		if s.W["merge"] > 1 {
 			s.W["merge"] = 1
 		}
+		if rng.Chance(0.3) {
+			// the process dies between two operations (sometimes inside a batch): the policy must hold just as well in
+			// the process that recovered an unclosed log - a pre-extended mapped file, a shortened active file
+			s.W["kill"] = rng.Range(1, 2)
+		}
 		return s.genPlain(rng, func() *Config {
 			cfg := c.Cfg
 			if rng.Chance(0.5) {
